@@ -35,6 +35,14 @@ GROUPS = {
     },
 }
 
+GROUPS["line_starts"] = {
+    "module": "markdown::reader::verif_kani",
+    "hook_file": "crates/liwe/src/markdown/reader.rs",
+    "repo": "crates/liwe/src/markdown/reader.rs (fn line_starts)",
+    "quick": ["line_starts_n0", "line_starts_n1", "line_starts_n2", "line_starts_n3", "line_starts_n4"],
+    "thorough": ["line_starts_n5", "line_starts_n6", "line_starts_n8"],
+    "kind": "bounded: text of n symbolic ASCII bytes (n = digit in the harness name), every arrangement of \\r, \\n and other codes < 128",
+}
 GROUPS["graph_nodes"] = {
     "module": "graph::verif_kani",
     "hook_file": "crates/liwe/src/graph.rs",
